@@ -263,9 +263,36 @@ def rand_data(rng):
     return out, lo, hi
 
 
+def core_excursions():
+    """Fixed templates (every run): single-sample excursions out of the range and back -- a trimmed part directly
+    followed by a cut part, so that usr > raw and later parts start before the points drawn so far -- at the start,
+    in the middle, at the end, several in a row, above/below alternating, on the boundary values, at coordinates
+    from 1 to 2^21 (a line end left at the transform's zero must be *rejected* there, see EndWithin), for every
+    consumer of the parts (polyline::set, apply fresh / after set, both dimensions)."""
+    behs = []
+    for big in (1, 1 << 15, 1 << 16, 1 << 19):
+        lo, hi = big, 3 * big
+        I, A, B = 2 * big, 4 * big, 0
+        pats = [[I, A, I], [I, A, I, I, A], [I, A, I, A, I], [A, I, A, I], [I, B, I, A, I, I], [B, I, A, I, B, I, I],
+                [I, I, A, I, B, I, A, I, I], [I, A, I, I, I, B, I], [A, I, B], [I, A, B, I], [lo, A, hi, B, lo],
+                [I, A, A, I, B, I], [I, A, hi, A, lo, B, I]]
+        for p in pats:
+            def init(d2=None):
+                arg = {"data": p, "lo": lo, "hi": hi, "ranged": 1, "lim": 65535, "shift": 0}
+                if d2 is not None:
+                    arg["data2"] = d2
+                return {"a": "init", "arg": arg}
+            behs.append([init(), {"a": "poly", "arg": {"x": 0}}])
+            behs.append([init(), {"a": "apply", "arg": {"mode": "set"}}, {"a": "poly", "arg": {"x": 0}}])
+            behs.append([init(), {"a": "apply", "arg": {"mode": "fresh"}}])
+            for d2 in (list(reversed(p)), [I] * len(p), p[1:] + [I]):
+                behs.append([init(d2), {"a": "apply2", "arg": {"mode": "set" if d2[0] == I else "fresh"}}])
+    return behs
+
+
 def gen_random(ck, n):
     rng = ck.rng
-    behs = []
+    behs = core_excursions()
     for _ in range(n):
         data, lo, hi = rand_data(rng)
         beh = [{"a": "init", "arg": {"data": data, "lo": lo, "hi": hi, "ranged": 0 if rng.random() < 0.05 else 1,
@@ -395,8 +422,21 @@ def nontrivial_beh(beh, recs):
 
 
 def run(tier):
-    cfg = CFG[tier]
+    """A later stage that cannot be evaluated (MachineryError) must not swallow what TLC has already rejected:
+    violations found so far are reported (the error is kept in the evidence notes)."""
     ck = vlib.Check(PID, tier)
+    try:
+        return run_stages(ck, tier)
+    except vlib.MachineryError as ex:
+        if not ck.violations:
+            raise
+        vlib.log("machinery error after %d violation(s): %s" % (len(ck.violations), str(ex)[:300]))
+        ck.notes["machinery_error_after_violations"] = str(ex)[:2000]
+        return ck.finish()
+
+
+def run_stages(ck, tier):
+    cfg = CFG[tier]
     exes = build()
 
     # 1. + 2. model checking and behaviour export run side by side
